@@ -34,6 +34,22 @@ fn sample() -> Vec<String> {
     let mut ct: CacheTable<u32> = CacheTable::new(16, 0);
     ct.add(b.get_hash(), 5);
     out.push(format!("{:?} {:?}", ct.get(b.get_hash()), ct.get(1)));
+    // en-passant legality (rank exposure, two capturers), pins, checks, mates: every corner of move generation
+    for fen in ["7k/8/8/K1Pp3r/8/8/8/8 w - d6 0 1", "7k/8/8/K1PpP2r/8/8/8/8 w - d6 0 1", "4k3/8/8/3pP3/8/8/8/4K3 w - d6 0 1", "4r2k/8/8/2PpP3/4K3/8/8/8 w - d6 0 1", "R6k/6pp/8/8/8/8/8/4K3 b - - 0 1", "4k3/8/8/8/7b/3n4/4r3/4K3 w - - 0 1", "r3k2r/p1ppqpb1/bn2pnp1/3PN3/1p2P3/2N2Q1p/PPPBBPPP/R3K2R w KQkq - 0 1"].iter() {
+        match Board::from_str(fen) {
+            Ok(x) => {
+                let ms: Vec<ChessMove> = MoveGen::new_legal(&x).collect();
+                let mut acc = 0u64;
+                for m in ms.iter() {
+                    acc = acc.wrapping_mul(31).wrapping_add(x.make_move_new(*m).get_hash());
+                    acc ^= x.legal(*m) as u64;
+                }
+                out.push(format!("{} {} {:x} {:?} {:x} {:x}", x, ms.len(), acc, x.status(), x.pinned().0, x.checkers().0));
+                out.push(format!("{:?} {:?}", ChessMove::from_san(&x, "exd6"), ChessMove::from_san(&x, "O-O")));
+            }
+            Err(e) => out.push(format!("{:?}", e)),
+        }
+    }
     let bb: BitBoard = Board::try_from(&BoardBuilder::from(nb)).map(|x: Board| *x.combined()).unwrap_or(EMPTY);
     out.push(format!("{:x} {}", bb.0, bb.popcnt()));
     out
